@@ -267,7 +267,7 @@ impl Check for C05 {
         ]
     }
     fn probes(&self) -> Vec<&'static str> {
-        vec!["fault.fragmented_send", "fault.pipelined_segment", "mut.bitflip", "mut.pad_to_limit", "sender_closed_excused", "probe_privmsg_ok", "state.ircop", "state.unregistered"]
+        vec!["fault.fragmented_send", "fault.pipelined_segment", "fault.slow_reader", "fault.short_reads", "net.writer_blocked", "net.short_reads", "mut.bitflip", "mut.pad_to_limit", "sender_closed_excused", "probe_privmsg_ok", "state.ircop", "state.unregistered"]
     }
 
     fn gen(&self, run_seed: u64, _idx: u64, _tier: Tier) -> Trace {
@@ -325,6 +325,20 @@ impl Check for C05 {
             }
         }
         let n = r.range(12, 40);
+        // transport faults on the fuzzing connection: short reads, short writes, a slow reader
+        let slow_reader = r.chance(1, 5);
+        if r.chance(1, 4) {
+            a.push(Action::ReadCap { c: FZ, n: r.range(1, 9) });
+            a.push(Action::Mark { m: "short_reads".into() });
+        }
+        if r.chance(1, 5) {
+            a.push(Action::WriteCap { c: FZ, n: r.range(1, 30) });
+            a.push(Action::Mark { m: "short_writes".into() });
+        }
+        if slow_reader {
+            a.push(Action::Window { c: FZ, n: r.range(0, 300) });
+            a.push(Action::Mark { m: "slow_reader".into() });
+        }
         let mut probe_no = 0;
         let mut labels: Vec<String> = vec![];
         let mut prev: Vec<u8> = b"PRIVMSG #mix :x".to_vec();
@@ -369,12 +383,25 @@ impl Check for C05 {
                 a.push(Action::Send { c: FZ, d: esc(&seg) });
             }
             a.push(Action::Settle);
+            if slow_reader && r.chance(1, 3) {
+                a.push(Action::Grant { c: FZ, n: [1usize, 50, 400, 3000][r.below(4)] });
+                a.push(Action::Settle);
+            }
             if r.chance(1, 2) {
                 probe_no += 1;
                 say(&mut a, B1, &format!("PRIVMSG by2 :probe-{}", probe_no));
                 say(&mut a, B2, &format!("PING pr-{}", probe_no));
-                say(&mut a, FZ, &format!("PING fz-{}", probe_no));
+                if !slow_reader {
+                    say(&mut a, FZ, &format!("PING fz-{}", probe_no));
+                }
             }
+        }
+        if slow_reader {
+            // heal: the reader drains everything; afterwards it must answer again (unless it was closed for a reason)
+            a.push(Action::Window { c: FZ, n: usize::MAX });
+            a.push(Action::Settle);
+            a.push(Action::Settle);
+            say(&mut a, FZ, "PING fz-healed");
         }
         probe_no += 1;
         say(&mut a, B1, &format!("PRIVMSG by2 :probe-{}", probe_no));
@@ -445,6 +472,8 @@ async fn exec_inner(t: Trace) -> Outcome {
     let mut viol: Option<Violation> = None;
     let mk = |class: &str, sig: String, step: usize, msg: String| Violation { property: "C05".into(), class: class.into(), sig, step, msg };
     let mut ended_ok = false;
+    let mut fz_excuse_seen = false;
+    let mut killing_seen: Vec<String> = vec![];
     for a in &t.actions {
         match a {
             Action::Send { c, d } => {
@@ -484,6 +513,8 @@ async fn exec_inner(t: Trace) -> Outcome {
                     out.count("fault.fragmented_send", 1);
                 } else if m == "pipelined" {
                     out.count("fault.pipelined_segment", 1);
+                } else {
+                    out.count(&format!("fault.{}", m), 1);
                 }
             }
             Action::Settle => {
@@ -551,11 +582,33 @@ async fn exec_inner(t: Trace) -> Outcome {
                     viol = Some(mk("crash", "panic@unknown".into(), step, "a connection handler ended by panic".into()));
                 }
                 // --- 2. bystanders must stay open
+                for l in &fz_step_lines {
+                    let v = first_token_upper(l);
+                    if v == "DIE" || v == "SQUIT" {
+                        killing_seen.push("*".to_string());
+                    } else if v == "KILL" {
+                        if let Some(n) = lenient_tokens(l).get(1) {
+                            killing_seen.push(n.clone());
+                        }
+                    }
+                }
                 if viol.is_none() {
                     for b in [B1, B2] {
                         if obs[b].eof {
                             let nick = if b == B1 { "by1" } else { "by2" };
-                            let excused = fz_oper
+                            for l in &fz_step_lines {
+                                let v = first_token_upper(l);
+                                if v == "DIE" || v == "SQUIT" {
+                                    killing_seen.push("*".to_string());
+                                } else if v == "KILL" {
+                                    if let Some(n) = lenient_tokens(l).get(1) {
+                                        killing_seen.push(n.clone());
+                                    }
+                                }
+                            }
+                            let sticky = fz_oper && killing_seen.iter().any(|k| k == "*" || k == nick);
+                            let excused = sticky
+                                || fz_oper
                                 && fz_step_lines.iter().any(|l| {
                                     let v = first_token_upper(l);
                                     let s = String::from_utf8_lossy(l).to_string();
@@ -572,8 +625,22 @@ async fn exec_inner(t: Trace) -> Outcome {
                     }
                 }
                 // --- 3. the sender stays open unless the protocol ends it
+                // (with a slow reader the server may act on a closing line only when the window opens again:
+                // an excuse seen in an earlier step stays valid)
+                let excuse_now = fz_step_lines.iter().any(|l| {
+                    let v = first_token_upper(l);
+                    v == "QUIT"
+                        || std::str::from_utf8(l).is_err()
+                        || l.len() >= 1990
+                        || (!fz_registered && has_password && ["PASS", "NICK", "USER", "CAP"].contains(&v.as_str()))
+                        || (fz_oper && ["KILL", "DIE", "SQUIT"].contains(&v.as_str()))
+                }) || fz_stream.len() >= 1990
+                    || fz_step_bytes.len() >= 1990;
+                if excuse_now {
+                    fz_excuse_seen = true;
+                }
                 if viol.is_none() && !ended_ok && obs[FZ].eof {
-                    let excused = fz_step_lines.iter().any(|l| {
+                    let excused = fz_excuse_seen || fz_step_lines.iter().any(|l| {
                         let v = first_token_upper(l);
                         v == "QUIT"
                             || std::str::from_utf8(l).is_err()
@@ -638,6 +705,11 @@ async fn exec_inner(t: Trace) -> Outcome {
         }
     }
     out.tails = w.conns.iter().map(|c| c.all_lines.iter().rev().take(12).rev().cloned().collect()).collect();
+    for (k, v) in w.net_counters() {
+        if k != "net.reads" && k != "net.writes" {
+            out.count(k, v);
+        }
+    }
     out.violation = viol;
     out.digest = w.digest;
     out.steps = w.steps;
